@@ -25,14 +25,22 @@ import (
 // apiRule describes the second part of the case list.
 const apiRule = "PEER-STATE API FAMILY (scenarios after the main list): application goroutines call the public peer-state API of the complete client (ConnectedCount, Peers, PeerByAddr, AddedNodeInfo, OutboundGroupCount, ForAllPeers, ConnectedPeers, ConnectNode with connected / spare / never-seen addresses and with host names, RemoveNodeByAddr/ByID, DisconnectNodeByAddr/ByID, BanPeer, UnbanPeer, IsBanned) from shortly before Stop is called until it has returned, at a stop state of the main list (17 of them, rotated by seed). The harness supplies Config.NameResolver: the lookup of one designated call (ConnectNode(host) / ConnectNode(new address) / UnbanPeer(new address), permanent or not) is held INSIDE the client's peer handler when Stop is called and answers 0-400 ms after Stop was CALLED with a reachable peer / an unreachable address / an error / no address; other variants: callers only (6-16), or slow lookups (up to 2-31 ms each) without a gate. j=0 and j=1 are fixed (ConnectNode(\"some.host:18444\", permanent) resolving, Stop, answer 300 ms later; the same through UnbanPeer with 6 pollers); j=2 is one more fixed scenario of the main kind kept here so that the main list keeps its numbering (GetCFilter fetching and persisting filters without pause while Stop waits for a broadcast no peer reacts to). ORACLE: the one of the main list (Stop returns, counted from the release of what the harness holds; every call in flight, the callers and the designated call included, returns; a sweep of one call of every operation made after Stop returned returns; the directory reopens); nothing is asserted about the VALUES the peer-state calls return (their signatures carry no shutdown error)"
 
+// extraRule describes the third part of the case list.
+const extraRule = "THIRD LIST (scenarios after the API family). HOST NAMES AMONG THE PERMANENT PEERS, a dimension of every non-fixed scenario of all three lists (half of them, drawn from a generator of its own so that the rest of a plan is what it was): next to the reachable peers (IP literals) Config.ConnectPeers carries 0-2 host names the scripted Config.NameResolver answers with an error / an empty result on every lookup (before, while and after Stop runs), 0-1 name that resolves to a reachable peer the client is not otherwise configured with, 0-1 that does so only from the n-th lookup on (n in 1..1000: before Stop or never within the scenario), lookups taking 0-20 ms, names first or last in the list; the client retries a failing lookup every ConnectionRetryInterval (300 ms here). STOP WHILE A REBROADCAST IS BEING ANSWERED: a transaction was accepted earlier (pending in the broadcaster), 1-2 new blocks make the client announce it again, 1-5 peers hold that announcement; Stop is called; -1 (racing) / 0-800 ms after Stop was CALLED each peer reacts as planned: requests the transaction and rejects it 0-120 ms after it arrived with one of 10 reject messages (already confirmed x2, in the mempool x2, invalid x4, fee, unknown), takes it silently, or stays silent; what most peers say rotates over {confirmed, mempool, invalid, mixture, confirmed, fee}; BroadcastTimeout 2.5-5 s, QueryRejectTimeout 0.3-1 s, optionally one more SendTransaction pending. m=0 and m=1 are fixed: an idle synced client with the permanent peer \"never.resolves.sim:18444\" whose lookups always fail, Stop; transaction accepted, one block announced, Stop, 400 ms later every one of 3 peers requests the re-announced transaction and rejects it as already confirmed. ORACLE: the one of the main list, Stop's latency counted from the peers' reaction (held by the harness)"
+
 func main() {
 	one := flag.Int("one", -1, "debug: run this scenario in-process and print its result")
 	verbose := flag.Bool("v", false, "debug: client logs to stdout")
 	r := evid.New("C17", "exploration")
 	// Case list: scenarios 0..nMain-1 are the main list, nMain..nMain+nAPI-1
-	// the peer-state API family (scenario j = k-nMain of c17.APIScenario).
-	nMain, nAPI := r.Pick(36, 2500), r.Pick(11, 300)
+	// the peer-state API family (scenario j = k-nMain of c17.APIScenario), the
+	// rest the third list (scenario m = k-nMain-nAPI of c17.ExtraScenario).
+	nMain, nAPI, nExtra := r.Pick(36, 2500), r.Pick(11, 300), r.Pick(8, 240)
 	scenario := func(seed int64, k int, res *l2.Result) {
+		if k >= nMain+nAPI {
+			c17.ExtraScenario(seed, k-nMain-nAPI, res)
+			return
+		}
 		if k >= nMain {
 			c17.APIScenario(seed, k-nMain, res)
 			return
@@ -43,9 +51,9 @@ func main() {
 		debugOne(scenario, r.Seed, *one, *verbose)
 		return
 	}
-	r.Rule("scenario k: k=0 and k=1 are fixed (a UTXO scan fetching its first block when no peer is connected / when the connected peers never answer getdata; then Stop); for k>=2 the stop state rotates over {idle, k-th headers message of the initial header sync, k-th cfheaders response of the checkpointed / tip filter-header sync, a goroutine of the client parked at each of the 7 pause points (3 of them inside a real reorganisation of depth 1-6 run by rollBackToHeight, 2 inside a filter-header write, 1 before a header batch write, 1 inside a block-subscription registration), GetBlock/GetCFilter pending at silent peers, a storm of 8-16 callers fetching blocks from 4-8 answering peers (workers hand in results while Stop runs), rescan in catch-up / retrying a block / current (each with a goroutine in WaitForShutdown and one in Update), running UTXO batch, broadcast in flight, rebroadcast in flight, block subscriptions with a blocked reader and with a non-reading one holding a backlog, all peers unresponsive, all peers never reading (connection buffers 256-4096 bytes, filled by getheaders the peers provoke), no peer connected}; seed-chosen: chain 50-2500 blocks, 3 retarget presets, headers per message 100-2000, 1-8 peers from {honest, slow, silent, never-reading, flapping} (first one honest), which calls are in flight and how long they have been pending (0-7.8 s: first try / later tries of the query workers), delay between trigger and Stop (0-40 ms), when a parked point is released (30-120 ms after CALLING Stop), PersistToDisk. ORACLE (1) Stop returns; after a 40 s watchdog the verdict is 'violated' only if goroutine dumps taken every 3 s over 36 s show Stop and every goroutine running client code parked in identical frames, none runnable/new/ended, and not one network event; else inconclusive. (2) every call in flight returns within 15 s after Stop returned (otherwise the same dump argument; additionally 'spinning' = inside client code in every dump, goroutines moving, zero network events over 36 s after all subsystems are stopped), with an error or a correct result (nil block / nil filter / 'not found' for an existing output, each with nil error = violation); one call of every kind made AFTER Stop returned must return, with an error unless served from a cache. (3) database and both header stores reopen; block chain passes the reference validator; filter tip <= block tip; every committed filter header equals the ground truth; a second client on the directory reaches the honest tip (a miss is a violation only if its state was stable during the last third of 45 s). distinct = state x peer-kind multiset x behaviour switched on before Stop x in-flight call kinds x outcome; non-trivial = the intended state was reached (trigger fired / point parked / request seen by a peer) and Stop was called in it" + " " + apiRule)
+	r.Rule("scenario k: k=0 and k=1 are fixed (a UTXO scan fetching its first block when no peer is connected / when the connected peers never answer getdata; then Stop); for k>=2 the stop state rotates over {idle, k-th headers message of the initial header sync, k-th cfheaders response of the checkpointed / tip filter-header sync, a goroutine of the client parked at each of the 7 pause points (3 of them inside a real reorganisation of depth 1-6 run by rollBackToHeight, 2 inside a filter-header write, 1 before a header batch write, 1 inside a block-subscription registration), GetBlock/GetCFilter pending at silent peers, a storm of 8-16 callers fetching blocks from 4-8 answering peers (workers hand in results while Stop runs), rescan in catch-up / retrying a block / current (each with a goroutine in WaitForShutdown and one in Update), running UTXO batch, broadcast in flight, rebroadcast in flight, block subscriptions with a blocked reader and with a non-reading one holding a backlog, all peers unresponsive, all peers never reading (connection buffers 256-4096 bytes, filled by getheaders the peers provoke), no peer connected}; seed-chosen: chain 50-2500 blocks, 3 retarget presets, headers per message 100-2000, 1-8 peers from {honest, slow, silent, never-reading, flapping} (first one honest), which calls are in flight and how long they have been pending (0-7.8 s: first try / later tries of the query workers), delay between trigger and Stop (0-40 ms), when a parked point is released (30-120 ms after CALLING Stop), PersistToDisk. ORACLE (1) Stop returns; after a 40 s watchdog the verdict is 'violated' only if goroutine dumps taken every 3 s over 36 s show Stop and every goroutine running client code parked in identical frames, none runnable/new/ended, and not one network event; else inconclusive. (2) every call in flight returns within 15 s after Stop returned (otherwise the same dump argument; additionally 'spinning' = inside client code in every dump, goroutines moving, zero network events over 36 s after all subsystems are stopped), with an error or a correct result (nil block / nil filter / 'not found' for an existing output, each with nil error = violation); one call of every kind made AFTER Stop returned must return, with an error unless served from a cache. (3) database and both header stores reopen; block chain passes the reference validator; filter tip <= block tip; every committed filter header equals the ground truth; a second client on the directory reaches the honest tip (a miss is a violation only if its state was stable during the last third of 45 s). distinct = state x peer-kind multiset x behaviour switched on before Stop x in-flight call kinds x outcome; non-trivial = the intended state was reached (trigger fired / point parked / request seen by a peer) and Stop was called in it" + " " + apiRule + " " + extraRule)
 	r.Assume("exported client knobs are shortened as in l2.init (QueryTimeout 1.5 s, ...); simulated peers implement DESIGN appendix B and never lie; a parked pause point is the harness's doing: Stop may wait for it and its latency is measured from the release; identical stacks of all client goroutines in 13 dumps plus an empty network log over 36 s (the longest timer of the client is the query worker's 32 s) is taken as 'no progress'")
-	n := nMain + nAPI
+	n := nMain + nAPI + nExtra
 	if os.Getenv("VERIF_SCRATCH") == "" {
 		d, _ := os.MkdirTemp("", "verif-c17-")
 		os.Setenv("VERIF_SCRATCH", d)
